@@ -11,6 +11,7 @@ import (
 	"strconv"
 	"strings"
 	"time"
+	"verif/harness/internal/genrun"
 
 	"github.com/200sc/bebop"
 
@@ -241,7 +242,7 @@ func runC19(c *Ctx) (int, error) {
 	_ = os.MkdirAll(bindir, 0o755)
 	for _, name := range []string{"bebopc-go", "bebopfmt"} {
 		cmd := exec.Command("go", "build", "-o", filepath.Join(bindir, name), "./main/"+name)
-		cmd.Dir = "/repo"
+		cmd.Dir = genrun.RepoDir()
 		cmd.Env = append(os.Environ(), "GOFLAGS=-mod=mod", "GOPROXY=off", "GOSUMDB=off", "GOTOOLCHAIN=local")
 		if out, err := cmd.CombinedOutput(); err != nil {
 			return 2, infra("building %s: %v\n%s", name, err, out)
